@@ -169,8 +169,32 @@ def run_shard(shard: Dict[str, Any], rep: Report) -> None:
     extra = P.call("policies") if P.has("policies") else {}
     for nm in ("frontier", "complete", "collide", "greedy", "lazy"):
         if nm in extra:
-            pols.extend([extra[nm]] * (1 if tier == "quick" else 3))
+            # "greedy" is the adversarial fill order (e.g. MultiCVRP shuttle that maximises the accumulated times):
+            # boundary values of the declared bounds are only reached for some keys, so it gets more episodes
+            reps = 4 if nm == "greedy" else 1
+            pols.extend([extra[nm]] * (reps if tier == "quick" else 3 * reps))
     cap = step_cap(shard["env"], shard["cfg"], tier)
+    # adversarial key search (workload only): where the model can score reset instances, the greedy/lazy workloads
+    # are played on the highest-scoring of 64 keys
+    hard_keys = []
+    if P.has("key_score") and any(nm in extra for nm in ("greedy", "lazy")):
+        from jmon.common import decode
+
+        scored = []
+        for j in range(64 if tier == "quick" else 256):
+            k_, ki_ = key_for(seed, shard["id"] + "|search", j)
+            s_, _ = runner.reset(k_)
+            scored.append((P.call("key_score", decode(s_)), ki_, k_))
+        scored.sort(key=lambda x: -x[0])
+        hard_keys = [(k_, ki_) for _, ki_, k_ in scored[: (2 if tier == "quick" else 6)]]
+        rep.count("adversarial_keys_searched", len(scored))
+        for (k_, ki_) in hard_keys:
+            for nm in ("greedy", "lazy"):
+                if nm in extra:
+                    info = run_episode(runner, k_, ki_, extra[nm], rng, [mon], episode=900, max_steps=max(cap, 250))
+                    rep.states += info["steps"] + 1
+                    rep.transitions += info["steps"]
+                    rep.count("adversarial_key_episodes")
     for ep, pol in enumerate(pols):
         key, kint = key_for(seed, shard["id"], ep)
         info = run_episode(runner, key, kint, pol, rng, [mon], episode=ep, max_steps=cap)
